@@ -440,9 +440,9 @@ func genCollEdits(rt *rapid.T, m *kit.Model) []kit.CollEdit {
 			id = kit.Ident{T: rapid.IntRange(0, kit.NumTypes-1).Draw(rt, "editT")}
 			switch rapid.IntRange(0, 2).Draw(rt, "editShape") {
 			case 1:
-				id.Key = rapid.SampledFrom([]string{"a", "b", "post"}).Draw(rt, "editKey")
+				id.Key = rapid.SampledFrom([]string{"a", "b b", "post"}).Draw(rt, "editKey")
 			case 2:
-				id.Group = rapid.SampledFrom([]string{"g", "h", "post"}).Draw(rt, "editGroup")
+				id.Group = rapid.SampledFrom([]string{"g", "h h", "post"}).Draw(rt, "editGroup")
 			}
 		}
 		e := kit.CollEdit{Ident: id, Life: rapid.IntRange(0, 2).Draw(rt, "editLife")}
